@@ -18,6 +18,7 @@ func init() {
 			"(both coordinators, selectValidators, the selection provider, expandList) is classified order-independent. (S2) 'with or without the group cache': the cache key derives from all four inputs " +
 			"(randomness, round, shard, epoch), the value cached on the miss path is the very value returned, a hit returns the cached value, and the cache is cleared on every EpochStartPrepare that " +
 			"installed a new configuration (Clear() after setNodesPerShards on every path to the exit). A key that omits an input, or a cache surviving an epoch change, makes a node answer with a group computed for other inputs. " +
+			"The rating-aware constructor rebuilds the selectors of nodesConfig[currentEpoch]. " +
 			"Not decided (value-level): group size, distinctness, membership in the eligible list, leader position.",
 		Run: runC15,
 	})
